@@ -617,6 +617,17 @@ def items_for(single_max, two_max, ghost_max):
     return items
 
 
+def replay(ctx, data):
+    """Re-run the one history of a recorded violation; True if its signature is not reproduced."""
+    d = data["first"]
+    dag = tuple(tuple(p) for p in d["dag"])
+    acc = _work([(dag, frozenset(d.get("ghosts", ())))])
+    hit = [v for v in acc.violations if v[0] == data["signature"]]
+    for sig, det in hit:
+        print("  ", sig, {k: det[k] for k in det if k not in ("dag",)})
+    return not hit
+
+
 def run(ctx):
     N = ctx.q(5, 6)
     N2 = ctx.q(4, 5)
